@@ -34,7 +34,7 @@ func caseTree(c *core.Ctx, g *gen.Gen, maxDepth int) *gen.Node {
 		return g.Sweep(c.Case)
 	}
 	// extreme but legal shapes (very deep, very wide, very long, the same value twice): every 24th
-	// PRNG-driven case (12th in the thorough tier), the five shapes in turn. They cost 10-100x an
+	// PRNG-driven case (240th in the thorough tier, which has 30-80x as many cases), the five shapes in turn. They cost 10-100x an
 	// ordinary case, most of all in the monitors that evaluate Is over all pairs of layers, which
 	// therefore take a quarter as many.
 	every := 24
@@ -45,7 +45,7 @@ func caseTree(c *core.Ctx, g *gen.Gen, maxDepth int) *gen.Node {
 		every = 384 // all pairs of layers x all perturbations
 	}
 	if c.Tier == "thorough" {
-		every /= 2
+		every *= 10 // 30-80x as many cases: 3-8x as many extreme ones
 	}
 	if k := c.Case - gen.SweepSize(); k%every == every-1 {
 		t, shape := g.Extreme(k/every + int(c.Seed))
